@@ -773,6 +773,10 @@ class PooledJSONRPCServer(socketserver.ThreadingMixIn, SimpleJSONRPCServer):
             SimpleJSONRPCServer.shutdown(self)
 
         SimpleJSONRPCServer.server_close(self)
+
+        # Let the requests already accepted be handled (the listening socket
+        # is closed: no new one can come), then stop the pool
+        self.__request_pool.join()
         self.__request_pool.stop()
 
 
